@@ -53,7 +53,15 @@ def run(res, scratch, *, tier, seed, replay):
     rc, out, dt = common.run([binary, "-histories", hp, "-trace", tp] + (["-keepalive=false"] if replay else []), timeout=1200)
     if rc != 0:
         raise Infra("deadline driver failed rc=%d: %s" % (rc, out[-2000:]))
-    n = json.loads(out.strip().splitlines()[-1])["histories"]
+    summ = json.loads(out.strip().splitlines()[-1])
+    n = summ["histories"]
+    late = summ.get("late", 0)
+    res.coverage["histories_skipped_harness_late"] = late
+    if late:
+        res.notes.append("%d of %d histories were not judged: the harness itself was more than a quarter tick late with one of their "
+                         "operations (overloaded machine)" % (late, n))
+    if late > max(3, n // 5):
+        raise Infra("the deadline harness could not keep its schedule for %d of %d histories (machine overloaded); not a verdict" % (late, n))
     res.coverage["evaluations"] += n
     res.coverage["distinct_nontrivial"] += sum(1 for h in hs if len(h["ops"]) >= 2) + (n - len(hs))
     viol, stats = common.tlc_validate(scratch, "DeadlineMonTrace", tp)
